@@ -169,7 +169,7 @@ structure Cfg where
   bufMax : Option Nat
   retryInit : Rat
   retryMax : Rat
-  maxAttempts : Nat         -- request_retry_max_attempts at construction
+  maxAttempts : Nat         -- request_retry_max_attempts
   reset : Option Int        -- auto_offset_reset: none | OFFSET_EARLIEST | OFFSET_LATEST
   depth : Nat := 4          -- nesting of re-entrant API calls the model follows
   deriving Repr, Inhabited
@@ -260,7 +260,6 @@ structure St where
   frame : Option Frame := none
   retryDelay : Rat
   attempts : Nat := 1
-  maxAttempts : Nat
   bufferSize : Nat
   now : Rat := 0
   nextReq : Nat := 0
@@ -274,7 +273,7 @@ structure St where
   deriving Repr, Inhabited
 
 def init (cfg : Cfg) (script : List PEntry) : St :=
-  { retryDelay := cfg.retryInit, maxAttempts := cfg.maxAttempts, bufferSize := cfg.bufInit, script := script }
+  { retryDelay := cfg.retryInit, bufferSize := cfg.bufInit, script := script }
 
 /-- Re-entrant API as seen from inside the processor and from the shutdown continuations. -/
 structure Ops where
@@ -372,7 +371,7 @@ def handleOffsetError (cfg : Cfg) (f : Fail) (s : St) : St :=
   let s := { s with requestD := .none }
   if s.startD == .none then s   -- stopped: late result of a cancelled request
   else if s.stopping then s
-  else if s.maxAttempts != 0 && s.attempts ≥ s.maxAttempts then startErrback f s
+  else if cfg.maxAttempts != 0 && s.attempts ≥ cfg.maxAttempts then startErrback f s
   else retryFetch cfg none s
 
 /-- `LoopingCall.reset()` (only acts while a call is scheduled). -/
@@ -587,12 +586,17 @@ def deliver (r : DRes) (s : St) : St :=
   let ws := s.commitDs
   ws.reverse.foldl (fireWaiter cfg inner r) { s with commitDs := [] }
 
+/-- The attempt limit `_handle_commit_error` applies: while shutting down a commit never retries
+    forever. -/
+def commitAttemptLimit (s : St) : Nat :=
+  if cfg.maxAttempts == 0 && s.shuttingDown then shutdownRetryAttempts else cfg.maxAttempts
+
 /-- `_handle_commit_error` (after `_clear_commit_req`) -/
 def handleCommitError (f : Fail) (delay : Rat) (attempt : Nat) (s : St) : St :=
   if s.stopping && f.isCancelled then deliver cfg inner (.ok s.lastCommitted) s
   else if !f.isKafka then deliver cfg inner (.err f) s
   else if f.isGroupFatal then deliver cfg inner (.err f) s
-  else if s.maxAttempts != 0 && attempt ≥ s.maxAttempts then deliver cfg inner (.err f) s
+  else if commitAttemptLimit cfg s != 0 && attempt ≥ commitAttemptLimit cfg s then deliver cfg inner (.err f) s
   else
     let nd := nextDelay cfg.retryMax delay
     { emit (.setTimer .commit nd) s with commitCall := .pending (s.now + nd) nd (attempt + 1) }
@@ -609,7 +613,7 @@ def handleFetchError (f : Fail) (s : St) : St :=
   if f.isOutOfRange && cfg.reset.isNone then startErrback f s else
   let s := if f.isOutOfRange then { s with fetchOffset := cfg.reset.getD s.fetchOffset } else s
   if s.stopping then s
-  else if s.maxAttempts != 0 && s.attempts ≥ s.maxAttempts then startErrback f s
+  else if cfg.maxAttempts != 0 && s.attempts ≥ cfg.maxAttempts then startErrback f s
   else retryFetch cfg none s
 
 /-- Hand the extracted messages to `_process_messages` (the `finally:` clause). -/
@@ -778,7 +782,7 @@ def shutdown (s : St) : St :=
   if s.startD == .none then emit .shutdownRejected s
   else if s.shutdownD then emit .shutdownRejected s
   else
-    let s := { s with shuttingDown := true, maxAttempts := if s.maxAttempts == 0 then shutdownRetryAttempts else s.maxAttempts, shutdownD := true }
+    let s := { s with shuttingDown := true, shutdownD := true }
     match s.proc with
     | some g => { s with proc := some { g with shutWait := true } }
     | none => commitAndStop cfg inner s
